@@ -261,11 +261,6 @@ def strip_last_label(routine_ops: list[list[SsbOperation]]) -> list[list[SsbOper
     returned_routine_ops = []
     for routine in routine_ops:
         if len(routine) > 0:
-            jump_counts: dict[int, int] = {}
-            for op in routine:
-                if isinstance(op, SsbLabelJump) and op.label is not None:
-                    jump_counts[op.label.id] = jump_counts.get(op.label.id, 0) + 1
-
             while len(routine) > 0 and isinstance(routine[-1], SsbLabel):
                 indices_to_remove = set()
                 label = routine[-1]
@@ -284,8 +279,7 @@ def strip_last_label(routine_ops: list[list[SsbOperation]]) -> list[list[SsbOper
                     else:
                         if isinstance(op, SsbLabel):
                             # If there is a label before, then something might jump here!
-                            if jump_counts.get(op.id, 0) > 1:
-                                op_before_ends_control_flow = False
+                            op_before_ends_control_flow = False
                         else:
                             op_before_ends_control_flow = does_op_end_control_flow(
                                 op, routine[op_i - 1] if op_i > 0 else None
